@@ -27,10 +27,14 @@ def run_cfg(chk, facts, cfg):
     sfx = '' if cfg == 'default' else '[%s]' % cfg
     n = 0
     from ..overrides import obligation as no_overrides
-    no_overrides(chk, PID, facts, sfx, [m.path], 'interval predicates and the range view')
 
     def den(base, kind, env):
         return m.denote(base, kind, env)
+
+    def member(kinds, env):
+        return den('A', kinds[0], env)[0] <= env['x'] <= den('A', kinds[0], env)[1]
+    no_overrides(chk, PID, facts, sfx, [m.path], 'interval predicates and the range view',
+                 checkers={('RangeBounds', 'contains'): lambda fnrec: table_check(chk, PID, facts, m, fnrec, 'RangeBounds::contains(override)' + sfx, ['A'], ['x'], member)}, traits=('RangeBounds',))
 
     f = facts.inherent(m.path, 'contains')
     if chk.anchor('Interval::contains' + sfx, f):
